@@ -696,7 +696,7 @@ def timing_tasks(rep):
         other = descs[(i + n // 2) % n]
         desc = {"p": d, "n": other, "reg_hole": i}
         # thorough tier: the nested programs of the second condition rotation keep the quick-tier length
-        Ld = L - 1 if (not rep.quick and d[1] is not None and d[3] >= 1) else L
+        Ld = L - 1 if (not rep.quick and d[1] is not None and (d[3] >= 1 or d[2] not in G.QUICK_INNER)) else L
         plan = [(0, 0, Ld)] + [(c, k, Ld - 1) for c in range(4) for k in range(2) if (c, k) != (0, 0)]
         tasks.append(("timing", (desc, plan, rep.pick(1, 3)), rep.tier))
     # asynchronous reset of the rising-edge domain (no falling-edge program; mask bit 2 toggles the reset)
@@ -749,7 +749,7 @@ def run(rep):
                "distinct_nontrivial = accepted (spec, operand, value) triples whose expected text differs from str(value), plus timing "
                "designs with at least one active edge")
     rep.setcov("timing_sequence_length", {"register_init_0": rep.pick(3, 4), "other_register_inits": rep.pick(2, 3),
-                                          "note": "thorough: nested programs of condition rotation 1 use 3 / 2"})
+                                          "note": "thorough: nested programs use 4 / 3 only for condition rotation 0 with the quick-tier inner forms, else 3 / 2"})
     # crashed / timed-out tasks are reported as violations; the coverage guards are meaningless then
     guards = not (rep.cov.get("tasks_crashed", 0) or rep.cov.get("tasks_timed_out", 0))
     rep.require(not guards or rep.cov.get("accepted", 0) > 0 and rep.cov.get("rejected", 0) > 0, "both accepted and rejected specifications")
